@@ -813,3 +813,29 @@ func ByteTotal(v reflect.Value) int {
 	}
 	return 0
 }
+
+// Grow resizes the largest top-level byte-slice field of c by delta bytes and makes the
+// structure consistent again (counts, alignment pads). It reports whether a field was resized.
+func Grow(c ci.CommandInterface, rels []Relation, delta int) bool {
+	v := reflect.ValueOf(c).Elem()
+	t := v.Type()
+	best, bestLen := -1, 0
+	for i := 0; i < t.NumField(); i++ {
+		sf := t.Field(i)
+		if sf.IsExported() && sf.Type.Kind() == reflect.Slice && sf.Type.Elem().Kind() == reflect.Uint8 && v.Field(i).Len() > bestLen {
+			best, bestLen = i, v.Field(i).Len()
+		}
+	}
+	if best < 0 || bestLen+delta < 0 {
+		return false
+	}
+	for _, r := range rels {
+		if r.Slice == t.Field(best).Name && (r.Kind != "" || (r.Count == "" && !r.Rest)) {
+			return false // fixed-size, pad or text field: not a free blob
+		}
+	}
+	resize(v.Field(best), bestLen+delta)
+	ApplyRelations(v, rels)
+	AlignPads(c, rels)
+	return true
+}
